@@ -122,6 +122,12 @@ pub const DELIMITERS: &[Entry] = &[
     (0x03, "end-of-attributes", &["end-of-attributes-tag"]),
     (0x04, "printer-attributes", &["printer-attributes-tag"]),
     (0x05, "unsupported-attributes", &["unsupported-attributes-tag"]),
+    // IANA IPP registry, delimiter tags registered after RFC 8010 (RFC 3995, PWG 5100.5, 5100.22)
+    (0x06, "subscription-attributes", &["subscription-attributes-tag"]),
+    (0x07, "event-notification-attributes", &["event-notification-attributes-tag"]),
+    (0x08, "resource-attributes", &["resource-attributes-tag"]),
+    (0x09, "document-attributes", &["document-attributes-tag"]),
+    (0x0a, "system-attributes", &["system-attributes-tag"]),
 ];
 
 pub const VALUE_TAGS: &[Entry] = &[
